@@ -22,6 +22,9 @@ def run(ctx):
     # alias '=', channel direction, grouped declarations, statement shapes ...
     nm = fr.text_vectors(ctx, "corpus/nearmiss/vectors.json", "C01")
     results += fr.replay_and_judge(ctx, "nearmiss", nm, None, shards=8)
+    # interaction corpus: labels, several elisions with repeated metavariables, adjacent
+    # elisions, optional tokens / parentheses inside bindings, guards that do not hold
+    results += fr.replay_and_judge(ctx, "inter", fr.text_vectors(ctx, "corpus/inter/vectors.json", "C01"), None, shards=8)
     # the same universe patterns against files with rich surrounding syntax
     rich = fr.on_files(fr.sample(ctx, vecs, 24 if quick else 200), ["corpus/rich/r1.go", "corpus/rich/r2.go"], "rich corpus")
     results += fr.replay_and_judge(ctx, "rich", rich, None, shards=8)
